@@ -93,30 +93,35 @@ theorem unmarshal_hb (cat : Cat) (bs : Bytes) (h4 : bs.take 4 ≠ Frame.amqp) (h
 
 theorem unmarshal_reject (cat : Cat) (bs : Bytes) (h4 : bs.take 4 ≠ Frame.amqp) (h7 : 7 ≤ bs.length)
     (ht : unbe (slice bs 0 1) ≠ 8 ∨ unbe (slice bs 3 7) ≠ 0)
-    (hs : unbe (slice bs 3 7) = 0 ∨ bs.length < unbe (slice bs 3 7) + 8) :
+    (hs : (unbe (slice bs 3 7) = 0 ∧ unbe (slice bs 0 1) ≠ 3) ∨ bs.length < unbe (slice bs 3 7) + 8) :
     Frame.unmarshal cat bs = .error .unmarshaling := by
   simp only [Frame.unmarshal, if_neg h4, frameParts_long bs h7]
   generalize unbe (slice bs 3 7) = sz at *
-  have c1 : ¬ (unbe (slice bs 0 1) = 8 ∧ sz = 0) := by omega
+  generalize unbe (slice bs 0 1) = ft at *
+  have c1 : ¬ (ft = 8 ∧ sz = 0) := by omega
   rw [if_neg c1]
-  by_cases hz : sz = 0
+  by_cases hz : sz = 0 ∧ ft ≠ 3
   · rw [if_pos hz]
   · have c3 : 7 + sz + 1 > bs.length := by omega
     rw [if_neg hz, if_pos c3]
 
 theorem unmarshal_badend (cat : Cat) (bs : Bytes) (h4 : bs.take 4 ≠ Frame.amqp) (h7 : 7 ≤ bs.length)
-    (hs : unbe (slice bs 3 7) ≠ 0) (he : bs[unbe (slice bs 3 7) + 7]? ≠ some Frame.frameEnd) :
+    (hs : unbe (slice bs 3 7) ≠ 0 ∨ unbe (slice bs 0 1) = 3)
+    (he : bs[unbe (slice bs 3 7) + 7]? ≠ some Frame.frameEnd) :
     Frame.unmarshal cat bs = .error .unmarshaling := by
   simp only [Frame.unmarshal, if_neg h4, frameParts_long bs h7]
   generalize unbe (slice bs 3 7) = sz at *
-  have c1 : ¬ (unbe (slice bs 0 1) = 8 ∧ sz = 0) := by omega
-  rw [if_neg c1, if_neg hs]
+  generalize unbe (slice bs 0 1) = ft at *
+  have c1 : ¬ (ft = 8 ∧ sz = 0) := by omega
+  have c2 : ¬ (sz = 0 ∧ ft ≠ 3) := by omega
+  rw [if_neg c1, if_neg c2]
   split
   · rfl
   · have e1 : 7 + sz + 1 - 1 = sz + 7 := by omega
     rw [e1, List.head?_drop, if_pos he]
 
-/-- every successful `unmarshal` took one of three paths -/
+/-- every successful `unmarshal` took one of three paths; the general path (third disjunct) is taken
+for a non-zero size and, since D12, also for size 0 when the type octet is 3 (the empty body frame) -/
 theorem unmarshal_ok_cases (cat : Cat) (bs : Bytes) (n ch : Nat) (f : AnyFrame)
     (h : Frame.unmarshal cat bs = .ok (n, ch, f)) :
     (bs.take 4 = Frame.amqp ∧ 8 ≤ bs.length ∧ n = 8 ∧ ch = 0 ∧
@@ -124,7 +129,7 @@ theorem unmarshal_ok_cases (cat : Cat) (bs : Bytes) (n ch : Nat) (f : AnyFrame)
         (.int (unbe (slice (slice bs 5 8) 1 2))) (.int (unbe (slice (slice bs 5 8) 2 3)))) ∨
     (bs.take 4 ≠ Frame.amqp ∧ 8 ≤ bs.length ∧ unbe (slice bs 0 1) = 8 ∧ unbe (slice bs 3 7) = 0 ∧
       bs[7]? = some Frame.frameEnd ∧ n = 8 ∧ ch = unbe (slice bs 1 3) ∧ f = .heartbeat) ∨
-    (bs.take 4 ≠ Frame.amqp ∧ 7 ≤ bs.length ∧ unbe (slice bs 3 7) ≠ 0 ∧
+    (bs.take 4 ≠ Frame.amqp ∧ 7 ≤ bs.length ∧ (unbe (slice bs 3 7) ≠ 0 ∨ unbe (slice bs 0 1) = 3) ∧
       unbe (slice bs 3 7) + 8 ≤ bs.length ∧ bs[unbe (slice bs 3 7) + 7]? = some Frame.frameEnd ∧
       dispatch cat (unbe (slice bs 0 1)) (unbe (slice bs 1 3)) (unbe (slice bs 3 7))
         (slice bs 7 (unbe (slice bs 3 7) + 7)) = .ok (n, ch, f)) := by
@@ -139,25 +144,27 @@ theorem unmarshal_ok_cases (cat : Cat) (bs : Bytes) (n ch : Nat) (f : AnyFrame)
     by_cases h7 : bs.length < 7
     · rw [unmarshal_short cat bs h4 h7] at h; cases h
     · have h7' : 7 ≤ bs.length := by omega
-      by_cases hs : unbe (slice bs 3 7) = 0
+      by_cases hs : unbe (slice bs 3 7) = 0 ∧ unbe (slice bs 0 1) ≠ 3
       · by_cases ht : unbe (slice bs 0 1) = 8
         · left
-          rw [unmarshal_hb cat bs h4 h7' ht hs] at h
+          rw [unmarshal_hb cat bs h4 h7' ht hs.1] at h
           split at h
           · cases h
           · split at h
             · cases h
             · rename_i h8 he
               simp only [Except.ok.injEq, Prod.mk.injEq] at h
-              exact ⟨h4, by omega, ht, hs, Decidable.not_not.1 he, h.1.symm, h.2.1.symm, h.2.2.symm⟩
+              exact ⟨h4, by omega, ht, hs.1, Decidable.not_not.1 he, h.1.symm, h.2.1.symm, h.2.2.symm⟩
         · rw [unmarshal_reject cat bs h4 h7' (Or.inl ht) (Or.inl hs)] at h; cases h
       · right
+        have hs' : unbe (slice bs 3 7) ≠ 0 ∨ unbe (slice bs 0 1) = 3 := by omega
+        have ht' : unbe (slice bs 0 1) ≠ 8 ∨ unbe (slice bs 3 7) ≠ 0 := by omega
         by_cases hl : bs.length < unbe (slice bs 3 7) + 8
-        · rw [unmarshal_reject cat bs h4 h7' (Or.inr hs) (Or.inr hl)] at h; cases h
+        · rw [unmarshal_reject cat bs h4 h7' ht' (Or.inr hl)] at h; cases h
         · by_cases he : bs[unbe (slice bs 3 7) + 7]? = some Frame.frameEnd
-          · rw [unmarshal_general cat bs h4 h7' hs (by omega) he] at h
-            exact ⟨h4, h7', hs, by omega, he, h⟩
-          · rw [unmarshal_badend cat bs h4 h7' hs he] at h; cases h
+          · rw [unmarshal_general_or cat bs h4 h7' hs' (by omega) he] at h
+            exact ⟨h4, h7', hs', by omega, he, h⟩
+          · rw [unmarshal_badend cat bs h4 h7' hs' he] at h; cases h
 
 /-! ## inversion of the type dispatch -/
 
@@ -371,6 +378,25 @@ theorem body_roundtrip (legacy : Bool) (cat : Cat) (b : Bytes) (hne : b ≠ []) 
   · simp only [Frame.marshal]; exact envelope_ok 3 ch hc b hl
   · rw [unmarshal_envelope cat 3 (by omega) ch hc b hne hl rest]; simp
 
+/-- D12: the body round trip needs no `b ≠ []` -/
+theorem body_roundtrip_any (legacy : Bool) (cat : Cat) (b : Bytes) (hl : b.length < 2 ^ 32)
+    (ch : Nat) (hc : ch < 65536) (rest : Bytes) :
+    ∃ bs, Frame.marshal legacy cat (.body (.bytes b)) (.int ch) = .ok bs ∧ bs.length = b.length + 8 ∧
+      Frame.frameParts bs = (3, ch, some (bs.length - 8)) ∧
+      Frame.unmarshal cat (bs ++ rest) = .ok (bs.length, ch, .body (.bytes b)) := by
+  refine ⟨envBytes 3 ch b, ?_, envBytes_length _ _ _, ?_, ?_⟩
+  · simp only [Frame.marshal]; exact envelope_ok 3 ch hc b hl
+  · rw [envBytes_length, envBytes_eq, frameParts_hdr _ _ _ (by omega) hc hl]
+    simp
+  · rw [unmarshal_envelope_body cat ch hc b hl rest, envBytes_length]
+
+theorem empty_body_roundtrip (legacy : Bool) (cat : Cat) (ch : Nat) (hc : ch < 65536) (rest : Bytes) :
+    ∃ bs, Frame.marshal legacy cat (.body (.bytes [])) (.int ch) = .ok bs ∧ bs.length = 8 ∧
+      Frame.unmarshal cat (bs ++ rest) = .ok (8, ch, .body (.bytes [])) := by
+  obtain ⟨bs, hm, hlen, _, hu⟩ := body_roundtrip_any legacy cat [] (by simp) ch hc rest
+  refine ⟨bs, hm, by simpa using hlen, ?_⟩
+  rw [hu, hlen]; rfl
+
 theorem heartbeat_roundtrip (legacy : Bool) (cat : Cat) (ch : PyVal) (rest : Bytes) :
     Frame.marshal legacy cat .heartbeat ch = .ok [8, 0, 0, 0, 0, 0, 0, 0xCE] ∧
     Frame.unmarshal cat ([8, 0, 0, 0, 0, 0, 0, 0xCE] ++ rest) = .ok (8, 0, .heartbeat) := by
@@ -428,6 +454,9 @@ theorem heartbeat_prefix (cat : Cat) (k : Nat) (hk : k < 8) :
     rw [unmarshal_hb cat _ (by decide) (by decide) (by decide) (by decide)]
     simp
 
+/-- strict prefixes of encoder output. For the 8-byte empty body frame (D12) and k = 7 the size is 0 and
+the type is 3, so the size-0 rule no longer applies: the decoder goes on to `byteCount = 8 > 7`
+('Not all data received'), which is the `bs.length < size + 8` alternative of `unmarshal_reject` -/
 theorem unmarshal_prefix_rejected (legacy : Bool) (cat : Cat) (f : AnyFrame) (ch : PyVal) (bs : Bytes)
     (h : Frame.marshal legacy cat f ch = .ok bs) (k : Nat) (hk : k < bs.length) :
     Frame.unmarshal cat (bs.take k) = .error .unmarshaling := by
@@ -483,8 +512,8 @@ theorem unmarshal_prefix_determines (cat : Cat) (bs : Bytes) (n ch : Nat) (f : A
     have e1 := slice_take_append bs rest (sz + 8) 1 3 (by omega) hl
     have e3 := slice_take_append bs rest (sz + 8) 3 7 (by omega) hl
     have e7 := slice_take_append bs rest (sz + 8) 7 (sz + 7) (by omega) hl
-    rw [unmarshal_general cat _ (by rw [take_take_append bs rest _ 4 (by omega) hl]; exact h4)
-      (by simp; omega) (by rw [e3, hsz]; exact hs) (by rw [e3, hsz]; simp; omega)
+    rw [unmarshal_general_or cat _ (by rw [take_take_append bs rest _ 4 (by omega) hl]; exact h4)
+      (by simp; omega) (by rw [e3, e0, hsz]; exact hs) (by rw [e3, hsz]; simp; omega)
       (by rw [e3, hsz, getElem?_take_append bs rest _ _ (by omega) hl]; exact he),
       e0, e1, e3, hsz, e7]
     exact hd
